@@ -76,7 +76,8 @@ StringDictionaryPFC::StringDictionaryPFC(IteratorDictString *it,
 
     // Checking the available space in textStrings and
     // realloc if required
-    while ((bytesStrings + (2 * lenCurrent)) > reservedStrings)
+    // The string needs up to lenCurrent chars, a VByte (5 bytes) and the '\0'
+    while ((bytesStrings + (2 * lenCurrent) + 6) > reservedStrings)
       reservedStrings = Reallocate(&textStrings, reservedStrings);
 
     if ((elements % bucketsize) == 0) {
